@@ -11,10 +11,13 @@ FIELD_SIG = {1: 'o', 2: 's', 3: 's', 4: 's', 5: 'u', 6: 's', 7: 's', 8: 'g', 9: 
 FIELD_ATTR = {1: 'path', 2: 'interface', 3: 'member', 4: 'error_name', 5: 'reply_serial', 6: 'destination', 7: 'sender', 8: 'signature', 9: 'unix_fds'}
 
 
-def ref_message(mtype, flags, serial, fields, body_sig, body_vals, le, extra_fields=()):
-    """spec bytes of a message: fields = [(code, value)] in the order given; extra_fields = [(code, sig, value)] unknown codes"""
+def ref_message(mtype, flags, serial, fields, body_sig, body_vals, le, extra_fields=(), extras_first=False):
+    """spec bytes of a message: fields = [(code, value)] in the order given; extra_fields = [(code, sig, value)] unknown codes, written
+    after the known fields or (extras_first) before them"""
     body = W.encode(body_sig, body_vals, 0, le) if body_sig else b''
-    arr = [[c, W.Variant(FIELD_SIG[c], v)] for c, v in fields] + [[c, W.Variant(s, v)] for c, s, v in extra_fields]
+    known = [[c, W.Variant(FIELD_SIG[c], v)] for c, v in fields]
+    extra = [[c, W.Variant(s, v)] for c, s, v in extra_fields]
+    arr = (extra + known) if extras_first else (known + extra)
     head = W.encode(HDR, [ord('l') if le else ord('B'), mtype, flags, 1, len(body), serial, arr], 0, le)
     return head + W.pad(len(head), 8) + body
 
@@ -144,8 +147,10 @@ def foreign_case(rnd, kind, fields, flags, serial, body_sig, body_vals, le):
     if rnd.random() < 0.5:
         extra.append((rnd.choice([10, 42, 200]), rnd.choice(['s', 'u', 'ay']), None))
         extra[-1] = (extra[-1][0], extra[-1][1], {'s': 'future', 'u': 7, 'ay': [1, 2]}[extra[-1][1]])
-    raw = ref_message(kind, flags, serial, flist, body_sig, body_vals, le, extra)
-    what = 'foreign message type %d fields %r extra %r flags %d serial %d body %r %r le=%s' % (kind, flist, extra, flags, serial, body_sig, body_vals, le)
+    # an unknown field may stand anywhere in the header: after the known fields, or before all of them
+    first = bool(extra) and (serial + len(flist) + kind) % 2 == 0
+    raw = ref_message(kind, flags, serial, flist, body_sig, body_vals, le, extra, extras_first=first)
+    what = 'foreign message type %d fields %r extra %r (%s the known fields) flags %d serial %d body %r %r le=%s' % (kind, flist, extra, 'before' if first else 'after', flags, serial, body_sig, body_vals, le)
     return parsed_equals(raw, kind, flags, serial, fields, body_sig, body_vals, what), raw
 
 
